@@ -26,6 +26,8 @@ PID = "C14"
 # mapped back to it), so powers may repeat
 REQS = {
     "rep": [(100, (1,)), (200, (1,)), (100, (1,)), (300, (2,))],
+    # two different groups that share a component
+    "ovl": [(100, (1, 2)), (200, (2, 3)), (300, (1, 2)), (400, (2, 3))],
     "rep2": [(100, (1,)), (200, (1,)), (100, (1,)), (200, (1,)), (100, (1,))],
     "q": [(100, (1,)), (200, (1,)), (300, (2,)), (400, (1,))],
     "t": [(100, (1,)), (200, (1,)), (300, (2,)), (400, (1,)), (500, (2,)), (600, (1,))],
@@ -49,7 +51,7 @@ class ProbeManager:
         self.epoch = 0
 
     def component_ids(self):
-        return {1, 2}
+        return {1, 2, 3}
 
     async def start(self):
         pass
@@ -254,9 +256,9 @@ def run(tier: str, seed: int, workers: int):
 
     acc = Acc()
     plans = (
-        [("q", False, 2), ("q", True, 1), ("q2", False, 1), ("rep", False, 1)]
+        [("q", False, 2), ("q", True, 1), ("q2", False, 1), ("rep", False, 1), ("ovl", False, 1)]
         if tier == "quick"
-        else [("t", False, 2), ("q", True, 2), ("q2", True, 1), ("t", True, 1), ("rep", True, 2), ("rep2", False, 2)]
+        else [("t", False, 2), ("q", True, 2), ("q2", True, 1), ("t", True, 1), ("rep", True, 2), ("rep2", False, 2), ("ovl", True, 2)]
     )
     bounds = {}
     for cfg, instant, bound in plans:
@@ -277,7 +279,7 @@ def run(tier: str, seed: int, workers: int):
         "assumptions": [
             "BatteryManager replaced by a probe manager from the harness (power_distributing.BatteryManager)",
             "requests are delivered through a real frequenz.channels Broadcast; asyncio FIFO scheduling is kept",
-            "component groups {1} and {2}; request count and deviation bound as listed in bounds_completed; requests are identified by "
+            "component groups {1} and {2} (plan 'ovl': {1,2} and {2,3}, two different groups sharing a component); request count and deviation bound as listed in bounds_completed; requests are identified by "
             "their position in the issue order (not by their power), and the plans 'rep' / 'rep2' repeat a power so that a request "
             "can equal the one in flight while a different one is pending",
         ],
